@@ -135,6 +135,11 @@ def rows():
         for mode in DECRYPT_MODES:
             for site in ('decrypt-first-key', 'decrypt-second-key'):
                 out.append({'site': site, 'mode': mode, 'pos': pos, 'bad': False})
+            # a decryption fault must not change what happens to the signatures inside the ciphertext: assertion signed (validly / invalidly), encrypted,
+            # delivered to an SP that wants signed assertions and to one without requirements
+            for sp in ('sp-a', 'sp-none'):
+                for bad in (False, True):
+                    out.append({'site': 'decrypt-signed-assertion', 'mode': mode, 'pos': pos, 'bad': bad, 'sp': sp})
     return out
 
 
@@ -247,6 +252,15 @@ def run(case):
         if not build.verify(build.strip_decl(xml), build.SAMLP + ':AuthnRequest', rid, 0):
             raise Violation('unsigned-returned', 'request-sign: faulted with %s (#%s) and an AuthnRequest without a valid signature was returned' % (mode, pos))
         return label + '|returned-signed', True
+    if site == 'decrypt-signed-assertion':
+        doc = w['docs'][('A', 2, bad)]
+        with Plan('--decrypt', positions(pos), mode) as plan:
+            v = sp_verdict(w[case['sp']], doc)
+            hits = plan.hits()
+        if v[0] == 'accept' and bad and (v[1] or v[2]):
+            raise Violation('corrupted-accepted-under-fault', 'decrypt-signed-assertion (%s): an encrypted assertion whose own signature is invalid yields identity %r when --decrypt #%s is faulted with %s'
+                            % (case['sp'], v[1:], pos, mode))
+        return label + '|' + case['sp'] + '|' + v[0], bool(hits)
     if site in ('decrypt-first-key', 'decrypt-second-key'):
         doc = w['docs'][('none', 2 if site == 'decrypt-first-key' else 3, False)]
         with Plan('--decrypt', positions(pos), mode) as plan:
